@@ -26,8 +26,9 @@ RULE = ("(A) retry model on virtual time: for every retry budget r in 1..4, ever
 ASSUMPTIONS = ["virtual time decides all timing verdicts; scripted delays are offset by 0.25 s from every timeout instant",
                "credentials are known to the client from an earlier successful authenticate (needed for unattended re-authentication)",
                "the outcome class of the faulted exchange itself is C09's business; here only counts, instants and recovery are judged"]
-ANCHORS = ["lan.py:LAN.send", "lan.py:LAN._connect", "lan.py:LAN._disconnect", "lan.py:_LanProtocol.write",
-           "base_device.py:Device._send_command", "device.py:AirConditioner.refresh"]
+# reach anchors: only entry points this check calls itself or callbacks the event loop needs (robust against internal refactors);
+# that the mechanism was really exercised is demanded through MIN_NONTRIVIAL / MIN_HIST outcome counts
+ANCHORS = ["lan.py:LAN.send", "lan.py:LAN._connect", "lan.py:LAN._disconnect", "base_device.py:Device._send_command", "device.py:AirConditioner.refresh"]
 MIN_NONTRIVIAL = {"quick": 3000, "thorough": 20000}
 MIN_HIST = {"quick": {"recovery-ok": 600, "retry-model-ok": 2500}, "thorough": {"recovery-ok": 8000, "retry-model-ok": 5000}}
 WORKERS = {"quick": 1, "thorough": 16}
@@ -57,6 +58,12 @@ def generate(ctx, rng):
             pats = list(itertools.product(range(len(DELAYS)), repeat=r))
             for i in range(0, len(pats), 54):
                 yield ("retry", version, r, i), {"kind": "retry", "version": version, "r": r, "patterns": [list(p) for p in pats[i:i + 54]]}
+            # the same when the exchange first has to reconnect (and, on V3, to re-authenticate): the retry clock starts with the
+            # first transmission, not with the call
+            for i in range(0, len(pats), 54):
+                if (i // 54) % 3 == 0 or not quick:
+                    yield ("retry-reconnect", version, r, i), {"kind": "retry", "version": version, "r": r, "reconnect": True,
+                                                               "patterns": [list(p) for p in pats[i:i + 54]]}
         faults = FAULTS_V3 if version == 3 else FAULTS_V2
         for f in faults:
             for lt in (None, 90, 3600):
@@ -152,6 +159,11 @@ def _retry(ctx, case):
             delays = [grid[x] for x in pat]
             mid = (mid % 250) + 1
             q = acframe.state_query(mid)
+            if case.get("reconnect"):
+                for c in dev.conns:
+                    if not c.closed:
+                        c.emit([(0, "fin")])
+                await asyncio.sleep(0.05)
             st.update(delays=delays, frame=q, n=0, times=[])
             t0 = loop.time()
             try:
@@ -164,6 +176,8 @@ def _retry(ctx, case):
             except BaseException as e:  # noqa: BLE001
                 outcome = (type(e).__name__, 0)
             t1 = loop.time()
+            if case.get("reconnect") and st["times"]:
+                t0 = st["times"][0]          # connect (+ handshake and settling pause) precede the first transmission
             n_tx, times = st["n"], [t - t0 for t in st["times"]]
             st["delays"] = None
             # let stragglers arrive, then verify recovery with a prompt device
@@ -184,7 +198,7 @@ def _retry(ctx, case):
     H.run_virtual(go, net)
     for delays, outcome, dt, n_tx, times, late_tx, recovered in out:
         exp_n, A = _model(r, delays)
-        key = ("retry", version, r, tuple(delays))
+        key = ("retry", version, r, tuple(delays), bool(case.get("reconnect")))
         one = {**case, "patterns": [[grid.index(d) for d in delays]]}
         bad = False
         if not (1 <= n_tx <= r):
